@@ -72,7 +72,24 @@ enum Op {
     Push(u64, u64, bool, Vec<u8>),
     Replay(u64),
     SetPeer(u64),
+    /// `wait_for_credit(len, deadline)` with a deadline other than "now" (`wait_code`)
+    CreditW(u64, u8),
+    /// `wait_for_reconnect(timeout)` with a timeout other than zero (`wait_code`)
+    ReconnectW(u8),
 }
+
+/// The deadline / timeout parameter of the two waits, as a code recorded on the op line. The outcome of a wait
+/// whose caller is alone on the object does not depend on it (one pass through the loop decides; if that pass
+/// neither grants nor reports, nobody can change the state during the wait, so it ends in Timeout) — so the model
+/// has no such parameter and its driver ignores the token.
+///   0 = already expired (deadline = now / timeout = 0)      1 = in the past (now - 1 s) / 1 ns
+///   2 = 2 ms ahead (really parks when not satisfied)         3 = one hour ahead
+/// Code 3 is generated only where the harness's own bookkeeping (op log) says the call returns at once; every
+/// call with code >= 2 runs on a helper thread and is given up after `WAIT_GUARD`.
+const WAIT_GUARD: Duration = Duration::from_secs(10);
+/// waits given up so far: after the second one the guard shrinks (a tree on which such waits hang would
+/// otherwise cost minutes; the verdict is there after the first)
+static WAITS_GIVEN_UP: std::sync::atomic::AtomicU64 = std::sync::atomic::AtomicU64::new(0);
 
 impl Op {
     fn line(&self, idx: &str) -> String {
@@ -84,6 +101,8 @@ impl Op {
             Op::Resume(p, f, o) => format!("resume {} {} {} {}", idx, p, f, o),
             Op::Credit(l) => format!("credit {} {}", idx, l),
             Op::Reconnect => format!("reconnect {}", idx),
+            Op::CreditW(l, c) => format!("credit {} {} d{}", idx, l, c),
+            Op::ReconnectW(c) => format!("reconnect {} t{}", idx, c),
             Op::Push(o, d, l, b) => format!("push {} {} {} {} {}", idx, o, d, *l as u8, hex(b)),
             Op::Replay(o) => format!("replay {} {}", idx, o),
             Op::SetPeer(p) => format!("setpeer {} {}", idx, p),
@@ -97,10 +116,19 @@ impl Op {
             Op::Advance(..) => "advance",
             Op::Resume(..) => "resume",
             Op::Credit(..) => "credit",
-            Op::Reconnect => "reconnect",
+            Op::Reconnect | Op::ReconnectW(..) => "reconnect",
+            Op::CreditW(..) => "credit",
             Op::Push(..) => "push",
             Op::Replay(..) => "replay",
             Op::SetPeer(..) => "setpeer",
+        }
+    }
+    /// the same call without its wait parameter (what the bookkeeping and the oracles look at)
+    fn base(&self) -> Op {
+        match self {
+            Op::CreditW(l, _) => Op::Credit(*l),
+            Op::ReconnectW(_) => Op::Reconnect,
+            o => o.clone(),
         }
     }
 }
@@ -116,6 +144,8 @@ fn parse_op(w: &[&str]) -> Option<Op> {
         ("resume", 5) => Op::Resume(n(2)?, f(3)?, n(4)?),
         ("credit", 3) => Op::Credit(n(2)?),
         ("reconnect", 2) => Op::Reconnect,
+        ("credit", 4) => Op::CreditW(n(2)?, w[3].strip_prefix('d')?.parse().ok()?),
+        ("reconnect", 3) => Op::ReconnectW(w[2].strip_prefix('t')?.parse().ok()?),
         ("push", 6) => Op::Push(n(2)?, n(3)?, match w[4] { "1" => true, "0" => false, _ => return None }, unhex(w[5])?),
         ("replay", 3) => Op::Replay(n(2)?),
         ("setpeer", 3) => Op::SetPeer(n(2)?),
@@ -138,6 +168,8 @@ enum Ret {
     ResumeCancelled,
     Chunks(Vec<Chunk>),
     Panic(String),
+    /// a wait that should have returned at once was still parked after `WAIT_GUARD`
+    Blocked,
 }
 
 #[derive(Clone, Debug, PartialEq)]
@@ -220,6 +252,7 @@ fn show_ret(r: &Ret) -> String {
             s
         }
         Ret::Panic(_) => "PANIC".into(),
+        Ret::Blocked => "BLOCKED".into(),
     }
 }
 
@@ -276,6 +309,8 @@ struct Ctl {
     last_len: u64,
     disciplined: bool,
     poisoned: bool,
+    /// a guarded wait did not come back: the history ends here
+    abandoned: bool,
 }
 
 impl Ctl {
@@ -293,6 +328,7 @@ impl Ctl {
             last_len: 0,
             disciplined: true,
             poisoned: false,
+            abandoned: false,
         }
     }
 
@@ -318,8 +354,69 @@ impl Ctl {
 
     /// Run one op on the real object.
     fn call(&self, op: &Op) -> Ret {
-        call_tc(&self.tc, op)
+        match op {
+            Op::CreditW(..) | Op::ReconnectW(..) => call_wait(&self.tc, op),
+            _ => call_tc(&self.tc, op),
+        }
     }
+}
+
+/// The two waits with a deadline / timeout other than "expired".
+fn call_wait(tc: &Arc<TransferControl>, op: &Op) -> Ret {
+    let tc2 = tc.clone();
+    let op2 = op.clone();
+    let run = move || -> Ret {
+        let r = catch(|| match op2 {
+            Op::CreditW(l, code) => {
+                let now = Instant::now();
+                let deadline = match code {
+                    0 => now,
+                    1 => now.checked_sub(Duration::from_secs(1)).unwrap_or(now),
+                    2 => now + Duration::from_millis(2),
+                    _ => now + Duration::from_secs(3600),
+                };
+                match tc2.wait_for_credit(l, deadline) {
+                    Ok(()) => Ret::CreditOk,
+                    Err(repe::CreditError::Cancelled(r)) => Ret::CreditCancelled(r),
+                    Err(repe::CreditError::Timeout) => Ret::CreditTimeout,
+                }
+            }
+            Op::ReconnectW(code) => {
+                let timeout = match code {
+                    0 => Duration::ZERO,
+                    1 => Duration::from_nanos(1),
+                    2 => Duration::from_millis(2),
+                    _ => Duration::from_secs(3600),
+                };
+                match tc2.wait_for_reconnect(timeout) {
+                    ReconnectOutcome::ResumeReady(p) => Ret::ReconnResume(p.resume_at_offset),
+                    ReconnectOutcome::Cancelled(r) => Ret::ReconnCancelled(r),
+                    ReconnectOutcome::Timeout => Ret::ReconnTimeout,
+                }
+            }
+            _ => unreachable!(),
+        });
+        match r {
+            Ok(r) => r,
+            Err(msg) => Ret::Panic(msg),
+        }
+    };
+    let code = match op {
+        Op::CreditW(_, c) | Op::ReconnectW(c) => *c,
+        _ => 0,
+    };
+    if code < 2 {
+        return run();
+    }
+    let (tx, rx) = std::sync::mpsc::channel();
+    std::thread::spawn(move || {
+        let _ = tx.send(run());
+    });
+    let guard = if WAITS_GIVEN_UP.load(std::sync::atomic::Ordering::Relaxed) >= 2 { Duration::from_millis(300) } else { WAIT_GUARD };
+    rx.recv_timeout(guard).unwrap_or_else(|_| {
+        WAITS_GIVEN_UP.fetch_add(1, std::sync::atomic::Ordering::Relaxed);
+        Ret::Blocked
+    })
 }
 
 /// Run one op on the real object.
@@ -335,7 +432,13 @@ fn call_tc(tc: &TransferControl, op: &Op) -> Ret {
                 Ret::Unit
             }
             Op::Cancel(r) => {
-                tc.cancel(reason_text(*r));
+                // `reason: impl Into<String>`: an owned String, a borrowed &str, a boxed str
+                let text = reason_text(*r);
+                match *r % 3 {
+                    0 => tc.cancel(text),
+                    1 => tc.cancel(&text[..]),
+                    _ => tc.cancel(text.into_boxed_str()),
+                }
                 Ret::Unit
             }
             Op::Advance(f) => {
@@ -344,17 +447,29 @@ fn call_tc(tc: &TransferControl, op: &Op) -> Ret {
             }
             Op::Resume(p, f, o) => match tc.request_resume(peer(*p), *f, *o) {
                 Ok(o) => Ret::ResumeOk(o),
-                Err(ResumeRejection::WrongFileIndex { requested, current }) => Ret::ResumeWrongFile(requested, current),
-                Err(ResumeRejection::OutOfWindow) => Ret::ResumeOutOfWindow,
-                Err(ResumeRejection::Cancelled) => Ret::ResumeCancelled,
+                Err(e) => {
+                    // `ResumeRejection::reason()` (wire string) is exercised, not part of C11 / C13
+                    std::hint::black_box(e.reason().len());
+                    match e {
+                        ResumeRejection::WrongFileIndex { requested, current } => Ret::ResumeWrongFile(requested, current),
+                        ResumeRejection::OutOfWindow => Ret::ResumeOutOfWindow,
+                        ResumeRejection::Cancelled => Ret::ResumeCancelled,
+                    }
+                }
             },
             Op::Credit(l) => {
                 // deadline already reached: one pass through the wait loop, never parks
                 let deadline = Instant::now();
                 match tc.wait_for_credit(*l, deadline) {
                     Ok(()) => Ret::CreditOk,
-                    Err(repe::CreditError::Cancelled(r)) => Ret::CreditCancelled(r),
-                    Err(repe::CreditError::Timeout) => Ret::CreditTimeout,
+                    Err(e) => {
+                        // `Display` / `Error` of CreditError are exercised, not part of C11
+                        std::hint::black_box(e.to_string().len());
+                        match e {
+                            repe::CreditError::Cancelled(r) => Ret::CreditCancelled(r),
+                            repe::CreditError::Timeout => Ret::CreditTimeout,
+                        }
+                    }
                 }
             }
             Op::Reconnect => match tc.wait_for_reconnect(Duration::ZERO) {
@@ -376,6 +491,7 @@ fn call_tc(tc: &TransferControl, op: &Op) -> Ret {
                 tc.set_peer(peer(*p));
                 Ret::Unit
             }
+            Op::CreditW(..) | Op::ReconnectW(..) => unreachable!("waits with a parameter go through call_wait"),
         });
         match r {
             Ok(r) => r,
@@ -455,7 +571,7 @@ fn relevant(sig: &str) -> bool {
     let c13 = ["transfer.ring.", "transfer.resume.", "transfer.reconnect.", "transfer.advance."].iter().any(|p| sig.starts_with(p));
     // concurrent outcomes concern both properties; "a resume is accepted only before cancellation" is a clause
     // of C13 as well as of C11
-    if sig.starts_with("transfer.conc.") || sig == "transfer.cancel.resume_accepted" {
+    if sig.starts_with("transfer.conc.") || sig.starts_with("transfer.reuse.") || sig == "transfer.cancel.resume_accepted" {
         return true;
     }
     if RING_FAMILY.load(std::sync::atomic::Ordering::Relaxed) { c13 } else { !c13 }
@@ -534,7 +650,7 @@ fn oracles(c: &Ctl, op: &Op, ret: &Ret, before: &Option<Snap>, after: &Option<Sn
             fail("transfer.cancel.reason_changed", format!("cancel reason was {} ({:?}), now {}", show_reason(first), first.chars().take(40).collect::<String>(), a.reason.as_deref().map(show_reason).unwrap_or_else(|| "-".into())));
         }
         match ret {
-            Ret::CreditOk | Ret::CreditTimeout | Ret::ReconnResume(_) | Ret::ReconnTimeout => {
+            Ret::CreditOk | Ret::CreditTimeout | Ret::ReconnResume(_) | Ret::ReconnTimeout | Ret::Blocked => {
                 fail("transfer.cancel.wait_not_reported", format!("{} after cancel returned {}", op.kind(), show_ret(ret)))
             }
             Ret::CreditCancelled(r) | Ret::ReconnCancelled(r) if r != first => {
@@ -618,6 +734,7 @@ fn oracles(c: &Ctl, op: &Op, ret: &Ret, before: &Option<Snap>, after: &Option<Sn
             match (expect_before, ret) {
                 (Some(o), Ret::ReconnResume(r)) if *r == o => {}
                 (None, Ret::ReconnTimeout) => {}
+                (None, Ret::Blocked) => {} // generated only for replays of other failures; the model line disagrees
                 (Some(o), _) => fail("transfer.reconnect.pending_not_delivered", format!("accepted resume at {} pending, wait_for_reconnect returned {}", o, show_ret(ret))),
                 (None, _) => fail("transfer.reconnect.stale_or_double_delivery", format!("no resume pending, wait_for_reconnect returned {}", show_ret(ret))),
             }
@@ -640,6 +757,57 @@ struct Exec {
     ctl: Ctl,
     /// op lines since (and including) the last `new`, for replays
     hist: Vec<String>,
+    /// run the reuse (twin) oracle on the next op line (always in a replay; a PRNG draw otherwise)
+    twin_now: bool,
+}
+
+/// "64 MiB" as written in the documentation of `DEFAULT_REPLAY_RING_BYTES` / `TransferControl::new` (the
+/// harness's own number, not the crate's constant)
+const DOC_DEFAULT_RING_BYTES: u64 = 64 * 1024 * 1024;
+
+/// A fresh object brought, through public calls only, to the visible state `snap` (+ the pending resume the op
+/// log expects). `None` when that state cannot be rebuilt this way (a non-abutting ring in the dev profile, a
+/// pending resume whose offset has been evicted since, a poisoned object) or when the rebuilt object does not show
+/// `snap` after all.
+fn twin_of(ctl: &Ctl, snap: &Snap) -> Option<Ctl> {
+    for w in snap.ring.windows(2) {
+        if w[0].off.checked_add(w[0].dlen) != Some(w[1].off) {
+            return None;
+        }
+    }
+    if snap.ring.last().map(|c| c.off.checked_add(c.dlen).is_none()).unwrap_or(false) {
+        return None;
+    }
+    let (window, capacity, file, pending) = (ctl.window, ctl.capacity, ctl.file, ctl.expect_pending);
+    let snap2 = snap.clone();
+    let built = catch(move || {
+        let tc = TransferControl::with_replay_capacity(window, capacity);
+        if file != 0 {
+            tc.advance_to_file(file);
+        }
+        for c in &snap2.ring {
+            tc.push_replay(c.off, c.dlen, c.last, (*c.body).clone());
+        }
+        match (pending, snap2.peer) {
+            (Some(o), Some(p)) => {
+                if tc.request_resume(peer(p), file, o).is_err() {
+                    return None;
+                }
+            }
+            (Some(_), None) => return None,
+            (None, Some(p)) => tc.set_peer(peer(p)),
+            (None, None) => {}
+        }
+        tc.record_sent(snap2.sent);
+        tc.record_ack(file, snap2.acked);
+        if let Some(r) = &snap2.reason {
+            tc.cancel(r.clone());
+        }
+        Some(tc)
+    })
+    .ok()??;
+    let tw = Ctl { tc: built, ..Ctl::new(0, 0) };
+    if tw.snap().as_ref() == Some(snap) { Some(tw) } else { None }
 }
 
 /// One step on the real object with the direct oracles; returns (ret, after-snapshot, state changed).
@@ -673,8 +841,14 @@ fn do_op(ctl: &mut Ctl, op: &Op, known_before: Option<&Option<Snap>>, fails: &mu
     let after = ctl.snap();
     // log-derived bookkeeping first: the ring oracle compares against the pushes including this one and the
     // loop oracle applies after a disciplined record_sent; `first_reason` is still the value before this op
-    ctl.track(op, &ret, before.as_ref().map(|b| b.sent));
-    oracles(ctl, op, &ret, &before, &after, file_before, expect_before, fails);
+    let base = op.base();
+    ctl.track(&base, &ret, before.as_ref().map(|b| b.sent));
+    oracles(ctl, &base, &ret, &before, &after, file_before, expect_before, fails);
+    if ret == Ret::Blocked {
+        // the helper thread is still parked on the object and may act on it later: nothing after this is a
+        // sequential history any more
+        ctl.abandoned = true;
+    }
     fails.retain(|f| relevant(&f.sig));
     if ctl.first_reason.is_none() {
         if let Some(a) = &after {
@@ -697,10 +871,35 @@ fn exec_line(ex: &mut Exec, out: &mut Out, line: &str) -> (String, bool) {
         out.count("op.new");
         return (format!("{} new | {}", idx, show_snap(&ex.ctl.snap())), false);
     }
+    if w[0] == "newdef" {
+        // `TransferControl::new(window)`: the documented twin of `with_replay_capacity(window, 64 MiB)`
+        let win = w[2].parse::<u64>().expect("window");
+        ex.ctl = Ctl { tc: TransferControl::new(win), ..Ctl::new(win, DOC_DEFAULT_RING_BYTES) };
+        ex.hist.clear();
+        ex.hist.push(format!("mode {}", mode_name()));
+        ex.hist.push(line.to_string());
+        out.count("op.newdef");
+        return (format!("{} new | {}", idx, show_snap(&ex.ctl.snap())), false);
+    }
     let op = parse_op(&w).unwrap_or_else(|| panic!("unknown op line: {}", line));
     ex.hist.push(line.to_string());
     let mut fails = vec![];
+    // reuse oracle: the same call on a fresh object brought to the same visible state must do the same
+    let twin = if ex.twin_now { ex.ctl.snap().and_then(|b| twin_of(&ex.ctl, &b)) } else { None };
     let (ret, after, changed, stamps) = do_op(&mut ex.ctl, &op, None, &mut fails);
+    if let Some(tw) = twin {
+        out.count("reuse.twin_checked");
+        let tret = tw.call(&op);
+        let tafter = tw.snap();
+        if ret != Ret::Blocked && (tret != ret || tafter != after) && relevant("transfer.reuse.differs_from_fresh_object") {
+            let d = format!(
+                "{} on the object with this history: {} | {}; on a fresh object brought to the same visible state (advance, the retained pushes, peer / accepted resume, sent, ack, cancel): {} | {}",
+                op.kind(), show_ret(&ret), show_snap(&after), show_ret(&tret), show_snap(&tafter));
+            fails.push(Fail { sig: "transfer.reuse.differs_from_fresh_object".into(), detail: d });
+        }
+    } else if ex.twin_now {
+        out.count("reuse.twin_not_constructible");
+    }
     for f in fails {
         out.oracle_fail(&f.sig, &f.detail, &ex.hist);
     }
@@ -1336,8 +1535,16 @@ fn watchdog_scenario() -> (String, Vec<Fail>) {
     }
     let reg2: Arc<TransferRegistry<u64>> = Arc::new(TransferRegistry::new());
     reg2.register(4, d.clone());
+    // the idle timeout at its boundaries: zero (every transfer is idle at every tick), Duration::MAX (none ever is)
+    let (g, h, l) = (mk(), mk(), mk());
+    let reg3: Arc<TransferRegistry<u64>> = Arc::new(TransferRegistry::new());
+    reg3.register(0, g.clone());
+    let reg4: Arc<TransferRegistry<u64>> = Arc::new(TransferRegistry::new());
+    reg4.register(u64::MAX, h.clone());
     repe::spawn_watchdog(reg.clone(), Duration::from_millis(30));
     repe::spawn_watchdog(reg2.clone(), Duration::from_secs(3600));
+    repe::spawn_watchdog(reg3.clone(), Duration::ZERO);
+    repe::spawn_watchdog(reg4.clone(), Duration::MAX);
     let t0 = Instant::now();
     while !a.is_cancelled() && t0.elapsed() < Duration::from_secs(30) {
         std::thread::sleep(Duration::from_millis(20));
@@ -1350,8 +1557,24 @@ fn watchdog_scenario() -> (String, Vec<Fail>) {
     if !a.is_cancelled() {
         fail("transfer.watchdog.idle_not_cancelled", "an idle registered transfer was not cancelled within 30 s (idle timeout 30 ms, tick 1 s)".into());
     }
-    // give a second tick the chance to do more damage, then look
-    std::thread::sleep(Duration::from_millis(1200));
+    // a transfer registered after the watchdog's first scan is seen by a later one (the same thread, the same
+    // registry, scanned again and again)
+    reg.register(6, l.clone());
+    let t1 = Instant::now();
+    while !(l.is_cancelled() && g.is_cancelled()) && t1.elapsed() < Duration::from_secs(30) {
+        std::thread::sleep(Duration::from_millis(20));
+    }
+    if !l.is_cancelled() {
+        fail("transfer.watchdog.idle_not_cancelled", "an idle transfer registered after the watchdog's first scan was not cancelled within 30 s".into());
+    }
+    if !g.is_cancelled() {
+        fail("transfer.watchdog.idle_not_cancelled", "a transfer under a zero idle timeout was not cancelled within 30 s".into());
+    }
+    if h.is_cancelled() {
+        fail("transfer.watchdog.cancelled_not_idle", "a transfer under an idle timeout of Duration::MAX was cancelled".into());
+    }
+    // give another tick the chance to do more damage, then look
+    std::thread::sleep(Duration::from_millis(200));
     let a_after = snap_of(&a);
     let same = match (&a_before, &a_after) {
         (Some(x), Some(y)) => {
@@ -1379,7 +1602,163 @@ fn watchdog_scenario() -> (String, Vec<Fail>) {
     }
     drop(reg);
     drop(reg2);
-    (format!("watchdog A={}/{} B={} C={} D={} E={} reg={}", show(&a), if same { "same" } else { "changed" }, show(&b), show(&c), show(&d), show(&e), if reg_ok { "ok" } else { "bad" }), fails)
+    drop(reg3);
+    drop(reg4);
+    (format!("watchdog A={}/{} B={} C={} D={} E={} G={} H={} L={} reg={}", show(&a), if same { "same" } else { "changed" }, show(&b), show(&c), show(&d), show(&e), show(&g), show(&h), show(&l), if reg_ok { "ok" } else { "bad" }), fails)
+}
+
+// ------------------------------------------------------------------------------------------
+// user code that runs inside `TransferControl` / `TransferRegistry` (`sinks <i>`): the only callbacks are the
+// `Drop` of a displaced `PeerSink` (it runs inside `set_peer` / `request_resume`, under the control's mutex; the
+// sink's `send_notify` / `is_connected` are never called by stream.rs) and `Hash` / `Eq` of the registry key.
+// C11 / C13 say nothing about a sink whose `Drop` panics, blocks or calls back into the control, so this only
+// exercises those paths and counts what happened (`sinks.*` counters in the evidence); the one thing asserted is
+// a clause of the property: whatever the sink did, an object that still answers obeys acked <= sent and keeps its
+// first cancel reason.
+// ------------------------------------------------------------------------------------------
+static SINK_CALLS: std::sync::atomic::AtomicU64 = std::sync::atomic::AtomicU64::new(0);
+
+struct OddSink {
+    /// 0 String panic, 1 &'static str panic, 2 non-string payload, 3 slow (30 ms), 4 calls back into the control
+    kind: u8,
+    back: std::sync::Mutex<Option<std::sync::Weak<TransferControl>>>,
+}
+impl PeerSink for OddSink {
+    fn send_notify(&self, _m: &str, _b: NotifyBody) -> Result<(), PeerSendError> {
+        SINK_CALLS.fetch_add(1, std::sync::atomic::Ordering::Relaxed);
+        Err(PeerSendError::Disconnected)
+    }
+    fn is_connected(&self) -> bool {
+        SINK_CALLS.fetch_add(1, std::sync::atomic::Ordering::Relaxed);
+        false
+    }
+}
+impl Drop for OddSink {
+    fn drop(&mut self) {
+        match self.kind {
+            0 => panic!("{}", String::from("sink teardown failed")),
+            1 => panic!("sink teardown failed"),
+            2 => std::panic::panic_any(17u32),
+            3 => std::thread::sleep(Duration::from_millis(30)),
+            _ => {
+                if let Some(tc) = self.back.lock().ok().and_then(|g| g.as_ref().and_then(|w| w.upgrade())) {
+                    let _ = tc.offsets();
+                }
+            }
+        }
+    }
+}
+
+/// a registry key whose `Hash` sends every key to the same bucket and whose `Eq` is slow
+#[derive(Clone, Copy, PartialEq, Eq, Debug)]
+struct ClashKey(u64);
+impl std::hash::Hash for ClashKey {
+    fn hash<H: std::hash::Hasher>(&self, h: &mut H) {
+        h.write_u8(7);
+    }
+}
+
+fn sinks_scenario() -> (Vec<(String, u64)>, Vec<Fail>) {
+    let mut fails: Vec<Fail> = vec![];
+    let mut counts: Vec<(String, u64)> = vec![];
+    let mut count = |k: String| counts.push((k, 1));
+    for kind in 0u8..5 {
+        for via_resume in [false, true] {
+            // (a sink that was not displaced after all is dropped with the control, here: keep its panic in)
+            let mut local: Vec<String> = vec![];
+            let mut lfails: Vec<Fail> = vec![];
+            let _ = catch(|| {
+            let tc = TransferControl::with_replay_capacity(8, 64);
+            tc.push_replay(0, 3, false, vec![1, 2, 3]);
+            tc.record_sent(3);
+            tc.record_ack(0, 1);
+            let sink = Arc::new(OddSink { kind, back: std::sync::Mutex::new(Some(Arc::downgrade(&tc))) });
+            tc.set_peer(PeerHandle::new(PeerId(1), sink));
+            let tc2 = tc.clone();
+            let (tx, rx) = std::sync::mpsc::channel();
+            std::thread::spawn(move || {
+                let r = catch(|| {
+                    if via_resume {
+                        let _ = tc2.request_resume(peer(2), 0, 3);
+                    } else {
+                        tc2.set_peer(peer(2));
+                    }
+                });
+                let _ = tx.send(r.is_ok());
+            });
+            let how = match rx.recv_timeout(Duration::from_millis(1500)) {
+                Ok(true) => "returned",
+                Ok(false) => "panicked",
+                Err(_) => "stuck",
+            };
+            let path = if via_resume { "request_resume" } else { "set_peer" };
+            local.push(format!("sinks.drop_kind{}.{}.{}", kind, path, how));
+            if how == "stuck" {
+                return; // the helper thread holds the mutex for good; nothing more can be asked of this object
+            }
+            let after = Ctl { tc: tc.clone(), ..Ctl::new(0, 0) }.snap();
+            match after {
+                None => local.push(format!("sinks.drop_kind{}.{}.then_poisoned", kind, path)),
+                Some(a) => {
+                    local.push(format!("sinks.drop_kind{}.{}.then_usable", kind, path));
+                    if a.acked > a.sent {
+                        lfails.push(Fail { sig: "transfer.inv.acked_gt_sent".into(), detail: format!("after a sink whose Drop misbehaves (kind {}) was displaced by {}: acked {} > sent {}", kind, path, a.acked, a.sent) });
+                    }
+                    // first reason still wins on an object that went through this
+                    let r = catch(|| {
+                        tc.cancel("");
+                        tc.cancel("later");
+                        tc.cancel_reason()
+                    });
+                    if let Ok(got) = r {
+                        if got.as_deref() != Some("") {
+                            lfails.push(Fail { sig: "transfer.cancel.reason_changed".into(), detail: format!("after a misbehaving sink (kind {}, {}): cancel(\"\"), cancel(\"later\") left {:?}", kind, path, got) });
+                        }
+                    }
+                }
+            }
+            });
+            for k in local {
+                count(k);
+            }
+            fails.extend(lfails);
+        }
+    }
+    let sink_calls = SINK_CALLS.load(std::sync::atomic::Ordering::Relaxed);
+    // registry: `Default`, a key type with a degenerate Hash, boundary keys, re-use of a key after unregister
+    let reg: TransferRegistry<ClashKey> = TransferRegistry::default();
+    let ctrls: Vec<Arc<TransferControl>> = (0..40).map(|_| TransferControl::new(8)).collect();
+    let keys: Vec<u64> = (0..38).chain([u64::MAX - 1, u64::MAX]).collect();
+    let mut ok = reg.is_empty();
+    for (k, c) in keys.iter().zip(&ctrls) {
+        reg.register(ClashKey(*k), c.clone());
+    }
+    ok &= reg.len() == 40 && keys.iter().zip(&ctrls).all(|(k, c)| reg.get(ClashKey(*k)).map(|x| Arc::ptr_eq(&x, c)).unwrap_or(false));
+    ok &= reg.unregister(ClashKey(0)).map(|x| Arc::ptr_eq(&x, &ctrls[0])).unwrap_or(false) && reg.get(ClashKey(0)).is_none() && reg.len() == 39;
+    reg.register(ClashKey(0), ctrls[1].clone()); // the key is free again; the same control under two keys
+    ok &= reg.get(ClashKey(0)).map(|x| Arc::ptr_eq(&x, &ctrls[1])).unwrap_or(false) && reg.len() == 40;
+    let mut snap: Vec<u64> = reg.snapshot().into_iter().map(|(k, _)| k.0).collect();
+    snap.sort();
+    let mut want = keys.clone();
+    want.sort();
+    ok &= snap == want;
+    if !ok {
+        fails.push(Fail { sig: "transfer.registry.map_semantics".into(), detail: "register / get / unregister / snapshot / len / Default do not behave as a map (40 keys with one hash value, keys 0 and u64::MAX, a key re-used after unregister)".into() });
+    }
+    counts.push(("sinks.send_notify_or_is_connected_calls".into(), sink_calls));
+    counts.push(("sinks.scenarios".into(), 1));
+    (counts, fails)
+}
+
+fn exec_sinks(out: &mut Out, line: &str, res: (Vec<(String, u64)>, Vec<Fail>)) {
+    for (k, n) in res.0 {
+        out.add(&k, n);
+    }
+    for f in res.1 {
+        if relevant(&f.sig) {
+            out.oracle_fail(&f.sig, &f.detail, &[format!("mode {}", mode_name()), line.to_string()]);
+        }
+    }
 }
 
 fn exec_watchdog(out: &mut Out, line: &str, res: (String, Vec<Fail>)) {
@@ -1439,9 +1818,56 @@ fn gen_body(r: &mut Rng) -> Vec<u8> {
         1 | 2 | 3 => r.below(4) as usize,
         4 | 5 | 6 => r.below(24) as usize,
         7 | 8 => r.below(80) as usize,
-        _ => r.below(600) as usize,
+        // now and then a body far larger than every small capacity (and than 64 KiB)
+        _ => if r.chance(1, 40) { 65_536 + r.below(5000) as usize } else { r.below(600) as usize },
     };
     r.bytes(n)
+}
+
+/// chunk lengths for a free-form credit wait: the theorems need no 2^48 bound, so go beyond it too
+fn gen_len_any(r: &mut Rng, window: u64) -> u64 {
+    if r.chance(1, 10) {
+        *r.pick(&[(1u64 << 48) + 1, 1 << 63, u64::MAX - 1, u64::MAX])
+    } else {
+        gen_len(r, window)
+    }
+}
+
+/// peer ids: small ones (so that displaced / re-installed peers coincide) and the boundary values
+fn gen_peer(r: &mut Rng) -> u64 {
+    match r.below(10) {
+        0 => 0,
+        1 => u64::MAX,
+        2 => r.boundary(64),
+        _ => r.range(1, 5),
+    }
+}
+
+/// deadline / timeout code of a wait (see `WAIT_GUARD`); `immediate` = the op log says the wait returns at once
+fn wait_code(r: &mut Rng, immediate: bool) -> u8 {
+    match r.below(24) {
+        0 => 1,
+        1 => 2,
+        2 | 3 if immediate => 3,
+        _ => 0,
+    }
+}
+
+fn gen_credit(r: &mut Rng, ctl: &Ctl, snap: &Snap, len: u64) -> Op {
+    let infl = snap.sent.saturating_sub(snap.acked);
+    let immediate = ctl.first_reason.is_some() || infl == 0 || (infl as u128 + len as u128) <= ctl.window as u128;
+    match wait_code(r, immediate) {
+        0 => Op::Credit(len),
+        c => Op::CreditW(len, c),
+    }
+}
+
+fn gen_reconnect(r: &mut Rng, ctl: &Ctl) -> Op {
+    let immediate = ctl.first_reason.is_some() || ctl.expect_pending.is_some();
+    match wait_code(r, immediate) {
+        0 => Op::Reconnect,
+        c => Op::ReconnectW(c),
+    }
 }
 
 fn gen_file(r: &mut Rng, cur: u32) -> u32 {
@@ -1463,12 +1889,15 @@ fn gen_free(r: &mut Rng, ctl: &Ctl, snap: &Snap, ring_bias: bool) -> Op {
         0 | 1 => Op::Sent(lattice(r, &near)),
         2 => Op::Sent(snap.sent.saturating_add(gen_len(r, ctl.window))),
         3 | 4 | 5 => Op::Ack(gen_file(r, ctl.file), lattice(r, &near)),
-        6 | 7 => Op::Credit(gen_len(r, ctl.window)),
+        6 | 7 => {
+            let len = gen_len_any(r, ctl.window);
+            gen_credit(r, ctl, snap, len)
+        }
         8 => {
-            if r.chance(1, 6) { Op::Cancel(pick_reason(r)) } else { Op::Reconnect }
+            if r.chance(1, 6) { Op::Cancel(pick_reason(r)) } else { gen_reconnect(r, ctl) }
         }
         9 => {
-            if r.chance(1, 3) { Op::Advance(gen_file(r, ctl.file)) } else { Op::SetPeer(r.below(4)) }
+            if r.chance(1, 3) { Op::Advance(gen_file(r, ctl.file)) } else { Op::SetPeer(gen_peer(r)) }
         }
         10 | 11 | 16 => {
             // resume: ring boundaries, trailing edge, mid-chunk, evicted offsets, hostile values
@@ -1484,7 +1913,7 @@ fn gen_free(r: &mut Rng, ctl: &Ctl, snap: &Snap, ring_bias: bool) -> Op {
                 6 => lattice(r, &[edge, snap.sent, snap.acked]),
                 _ => edge.wrapping_add(r.below(3)).wrapping_sub(1),
             };
-            Op::Resume(r.range(1, 5), gen_file(r, ctl.file), off)
+            Op::Resume(gen_peer(r), gen_file(r, ctl.file), off)
         }
         12 | 17 => {
             let off = match r.below(4) {
@@ -1540,8 +1969,8 @@ fn gen_loop(r: &mut Rng, ctl: &Ctl, snap: &Snap, p: &mut Producer) -> Op {
             0 | 1 | 2 => Op::Ack(ctl.file, snap.acked.saturating_add(r.below(ctl.window.saturating_add(2).min(1 << 50)))),
             3 => Op::Ack(ctl.file, snap.sent),
             4 | 5 => Op::Ack(gen_file(r, ctl.file), lattice(r, &near)),
-            6 => Op::Resume(r.range(1, 5), gen_file(r, ctl.file), if snap.ring.is_empty() { lattice(r, &near) } else { r.pick(&snap.ring).off }),
-            7 => Op::Reconnect,
+            6 => Op::Resume(gen_peer(r), gen_file(r, ctl.file), if snap.ring.is_empty() { lattice(r, &near) } else { r.pick(&snap.ring).off }),
+            7 => gen_reconnect(r, ctl),
             8 => {
                 if r.chance(1, 8) { Op::Cancel(pick_reason(r)) } else { Op::Replay(lattice(r, &near)) }
             }
@@ -1554,7 +1983,8 @@ fn gen_loop(r: &mut Rng, ctl: &Ctl, snap: &Snap, p: &mut Producer) -> Op {
                 p.next_off = 0;
                 return Op::Advance(ctl.file.wrapping_add(1));
             }
-            Op::Credit(gen_len(r, ctl.window).min(u64::MAX - snap.sent))
+            let len = gen_len(r, ctl.window).min(u64::MAX - snap.sent);
+            gen_credit(r, ctl, snap, len)
         }
         Some(len) if !p.pushed => {
             p.pushed = true;
@@ -1594,7 +2024,7 @@ fn gen_capacity(r: &mut Rng) -> u64 {
 
 fn run_random(ex: &mut Exec, out: &mut Out, rng: &mut Rng, histories: usize, max_len: u64, ring_bias: bool, k: &mut u64) {
     for hno in 0..histories {
-        let line = format!("new {} {} {}", *k, gen_window(rng), gen_capacity(rng));
+        let line = if rng.chance(1, 12) { format!("newdef {} {}", *k, gen_window(rng)) } else { format!("new {} {} {}", *k, gen_window(rng), gen_capacity(rng)) };
         *k += 1;
         out.begin(&line);
         let (obs, nt) = exec_line(ex, out, &line);
@@ -1603,6 +2033,9 @@ fn run_random(ex: &mut Exec, out: &mut Out, rng: &mut Rng, histories: usize, max
         let mut prod = Producer { grant: None, pushed: false, next_off: 0 };
         let n = rng.range(max_len / 4, max_len);
         for _ in 0..n {
+            if ex.ctl.abandoned {
+                break;
+            }
             let snap = match ex.ctl.snap() {
                 Some(s) => s,
                 None => break, // poisoned by a (reported or contract) panic: start a new history
@@ -1611,10 +2044,12 @@ fn run_random(ex: &mut Exec, out: &mut Out, rng: &mut Rng, histories: usize, max
             let line = op.line(&k.to_string());
             *k += 1;
             out.begin(&line);
+            ex.twin_now = rng.chance(1, 5);
             let (obs, nt) = exec_line(ex, out, &line);
+            ex.twin_now = false;
             if looped {
                 // producer bookkeeping from what the real object answered
-                match &op {
+                match &op.base() {
                     Op::Credit(l) => {
                         prod.grant = if obs.contains(" credit-ok ") { Some(*l) } else { None };
                         prod.pushed = false;
@@ -1637,7 +2072,7 @@ fn main() {
     let mut rng = Rng::new(args.seed);
     out.config(&format!("mode {}", mode_name()));
     out.extra.insert("build_profile".into(), serde_json::json!(mode_name()));
-    let mut ex = Exec { ctl: Ctl::new(0, 0), hist: vec![format!("mode {}", mode_name()), "new 0 0 0".into()] };
+    let mut ex = Exec { ctl: Ctl::new(0, 0), hist: vec![format!("mode {}", mode_name()), "new 0 0 0".into()], twin_now: false };
     let mut k: u64 = 0;
 
     if let Some(ops) = args.replay_ops() {
@@ -1651,7 +2086,10 @@ fn main() {
             } else if line.starts_with("conc ") {
                 // a replay races much longer than a regular run
                 exec_conc(&mut out, &line, &ConcCfg { reps: 200_000, budget: Duration::from_secs(20), drop_ns: 40_000 });
+            } else if line.starts_with("sinks ") {
+                exec_sinks(&mut out, &line, sinks_scenario());
             } else {
+                ex.twin_now = true;
                 let (obs, nt) = exec_line(&mut ex, &mut out, &line);
                 out.case(&line, &obs, nt);
             }
@@ -1662,6 +2100,7 @@ fn main() {
 
     // the watchdog scenario needs seconds of wall-clock (the code floors the tick at 1 s): run it beside the rest
     let wd_thread = if family == "credit" { Some(std::thread::spawn(watchdog_scenario)) } else { None };
+    let sinks_thread = std::thread::spawn(sinks_scenario);
 
     // corpus: F3 (DESIGN.md §9) first
     let corpus: &[&str] = if family == "ring" { &[] } else { &["new c0 8 8", "sent c1 18446744073709551615", "credit c2 1", "new c3 8 8", "sent c4 18446744073709551615", "ack c5 0 5", "credit c6 6"] };
@@ -1715,6 +2154,14 @@ fn main() {
         match h.join() {
             Ok(res) => exec_watchdog(&mut out, line, res),
             Err(_) => out.oracle_fail("transfer.watchdog.scenario_panicked", "the watchdog scenario panicked", &[line.to_string()]),
+        }
+    }
+
+    {
+        let line = "sinks s0";
+        match sinks_thread.join() {
+            Ok(res) => exec_sinks(&mut out, line, res),
+            Err(_) => out.oracle_fail("transfer.sinks.scenario_panicked", "the sink / registry scenario panicked", &[line.to_string()]),
         }
     }
 
